@@ -2486,6 +2486,11 @@ class Evaluator:
             return ("inter", cur, args[0])
         if name == "difference_update" and len(args) == 1:
             return ("diff", cur, args[0])
+        if name in ("discard", "remove") and len(args) == 1 and not kwargs and (
+                self.is_setlike(cur) or cur[0] in ("empty", "union", "setof", "setlit", "diff", "inter") or (cur[0] == "comp" and cur[1] == "set")
+                or (cur[0] == "call" and cur[1] in ("set", "frozenset"))):
+            # s.discard(x): the set without x  (s.remove(x) is the same set when it does not raise)
+            return ("diff", cur, ("setlit", (args[0],)))
         return self._add_effect(cur, ("call", name, tuple(args), tuple(sorted(kwargs.items()))))
 
     # the real worker behind run(); separated so that __init__ inlining can ask for the final self
